@@ -979,6 +979,7 @@ mod statics {
              ("page.html.gz", vec![0x1f, 0x8b, 0]), ("notes.htmx.json", b"{}".to_vec()), ("photo.v1.2.jpeg", vec![0xff, 0xd8]), ("noext", b"plain".to_vec()),
              ("sub/deep/file.css", b"a{}".to_vec()), ("sub/index.html", b"<p>sub</p>".to_vec()), ("sub/deep/x.tar.gz", vec![1, 2, 3]), ("configure.html", b"<p>c</p>".to_vec()),
              ("caf\u{e9}.txt", b"non-ascii name".to_vec()), ("noindex/readme.md", b"# r".to_vec()), ("sound.oga", vec![b'O', b'g', b'g', b'S']), ("big.bin", (0..70000u32).map(|i| (i % 253) as u8).collect()),
+             ("we#ird/index.html", b"<p>hash dir</p>".to_vec()), ("we", b"the file named we".to_vec()), ("dot./x.txt", b"in dot-dir".to_vec()), ("trail..html", b"trailing dot page".to_vec()),
              ("edge8191.bin", vec![b'e'; 8191]), ("edge8192.bin", vec![b'f'; 8192]), ("edge8193.bin", vec![b'g'; 8193]), (".hidden", b"h".to_vec()), ("x.HTML", b"upper".to_vec())]
     }
     fn mime(name: &str) -> &'static str {
@@ -991,24 +992,34 @@ mod statics {
         for (n, c) in tree() { let p = std::path::Path::new(n); if let Some(d) = p.parent() { let _ = std::fs::create_dir_all(d); } std::fs::write(p, c).unwrap(); }
         let _ = std::os::unix::fs::symlink("all.dat", "link-to-all.dat");
     }
-    // (target, expected file or None for 404)
+    // the documented lookup, stated independently: cut the target at the first '?' or '#', then the file itself, else index.html
+    // inside the named directory, else the file with .html appended
+    fn lookup(target: &str) -> Option<String> {
+        let path = target.split(|c| c == '?' || c == '#').next().unwrap();
+        if !path.starts_with('/') || path == "/" || path.split('/').any(|seg| seg == "..") { return None; }
+        let rel = &path[1..];
+        let p = std::path::Path::new(rel);
+        if rel.is_empty() { return None; }
+        if p.is_dir() { let idx = p.join("index.html"); return if idx.is_file() { Some(format!("{}/index.html", rel.trim_end_matches('/'))) } else { None }; }
+        if rel.ends_with('/') { return None; }
+        if p.is_file() { return Some(rel.to_string()); }
+        if !rel.ends_with(".html") { let h = format!("{}.html", rel); if std::path::Path::new(&h).is_file() { return Some(h); } }
+        None
+    }
     fn cases() -> Vec<(String, Option<String>)> {
-        let mut v: Vec<(String, Option<String>)> = vec![];
+        let mut v: Vec<String> = vec![];
         for (n, _) in tree() {
-            let enc = n.replace('\u{e9}', "\u{e9}");
-            v.push((format!("/{}", enc), Some(n.to_string())));
-            v.push((format!("/{}?v=1", enc), Some(n.to_string())));
-            v.push((format!("/{}?from=/static/index.html", enc), Some(n.to_string())));
-            v.push((format!("/{}?a=b#frag.html", enc), Some(n.to_string())));
-            v.push((format!("/{}x", enc), None));
+            v.push(format!("/{}", n));
+            v.push(format!("/{}?v=1", n));
+            v.push(format!("/{}?from=/static/index.html", n));
+            v.push(format!("/{}?a=b#frag.html", n));
+            v.push(format!("/{}x", n));
         }
-        for (t, f) in [("/sub", Some("sub/index.html")), ("/sub/", Some("sub/index.html")), ("/sub?x=1", Some("sub/index.html")), ("/sub/?x=/a.html", Some("sub/index.html")),
-                       ("/configure", Some("configure.html")), ("/configure?from=/static/index.html", Some("configure.html")), ("/configure?tab=2#top.html", Some("configure.html")),
-                       ("/report.2024", Some("report.2024.html")), ("/noindex", None), ("/noindex/", None), ("/sub/deep", None), ("/missing", None), ("/missing.html", None), ("/sub/missing", None),
-                       ("/empty", None), ("/noext/", None), ("/configure.htm", None), ("/link-to-all.dat", Some("all.dat"))] {
-            v.push((t.to_string(), f.map(|x| x.to_string())));
+        for t in ["/sub", "/sub/", "/sub?x=1", "/sub/?x=/a.html", "/configure", "/configure?from=/static/index.html", "/configure?tab=2#top.html", "/report.2024", "/noindex", "/noindex/",
+                  "/sub/deep", "/missing", "/missing.html", "/sub/missing", "/empty", "/noext/", "/configure.htm", "/link-to-all.dat", "/we#ird", "/we#ird/", "/trail.", "/dot./x.txt", "/sub/deep/file.css#x?y"] {
+            v.push(t.to_string());
         }
-        v
+        v.into_iter().map(|t| { let w = lookup(&t); (t, w) }).collect()
     }
     pub fn check(target: &str, want: &Option<String>) -> Option<(String, String)> {
         let raw = format!("GET {} HTTP/1.1\r\nHost: localhost\r\n\r\n", target).into_bytes();
@@ -1019,10 +1030,13 @@ mod statics {
         match want {
             Some(f) => {
                 let content = std::fs::read(f).unwrap();
+                // a '#' that precedes the first '?' : the url-build-parse dependency cuts the path at the '?', RFC 3986 at the '#'
+                let frag_first = match (target.find('#'), target.find('?')) { (Some(h), Some(q)) => h < q, _ => false };
+                if frag_first && (p.status != 200 || p.body != content) { return Some(("c02_fragment_before_query".into(), format!("{} for {} (RFC 3986 path selects {}): the dependency takes everything up to the '?' as the path", p.status, target, f))); }
                 if p.status != 200 { return Some(("c02_status".into(), format!("{} for {} (selects {})", p.status, target, f))); }
                 if p.body != content { return Some(("c02_body".into(), format!("{}: {} body bytes, file {} has {}", target, p.body.len(), f, content.len()))); }
                 if cl.as_deref() != Some(content.len().to_string().as_str()) { return Some(("c02_content_length".into(), format!("{}: Content-Length {:?} for {} bytes", target, cl, content.len()))); }
-                if f != "all.dat" || !target.starts_with("/link") { if ct.as_deref() != Some(mime(f)) { return Some(("c02_media_type".into(), format!("{}: Content-Type {:?}, registered for {}: {}", target, ct, f, mime(f)))); } }
+                if !target.starts_with("/link") { if ct.as_deref() != Some(mime(f)) { return Some(("c02_media_type".into(), format!("{}: Content-Type {:?}, registered for {}: {}", target, ct, f, mime(f)))); } }
                 None
             }
             None => {
